@@ -7,6 +7,7 @@ import (
 	"slices"
 	"sort"
 	"strconv"
+	"strings"
 	"ti/base"
 	"ti/builtin"
 	"ti/eval"
@@ -21,9 +22,15 @@ const (
 	separator              = ":::"
 )
 
+// oneLine keeps a record on one output line: a name or a document may carry a
+// line break (a method named by a newline token, a keyword spelled as a string).
+func oneLine(record string) string {
+	return strings.NewReplacer("\r", "\\r", "\n", "\\n").Replace(record)
+}
+
 func PrintDefineInfosForPlugin(infos []string) {
 	for _, info := range infos {
-		fmt.Println(info)
+		fmt.Println(oneLine(info))
 	}
 }
 
@@ -468,12 +475,12 @@ func printAllClasses() {
 	sort.Strings(classes)
 
 	for _, className := range classes {
-		fmt.Println(prefixSignature + className + separator + className)
+		fmt.Println(oneLine(prefixSignature + className + separator + className))
 	}
 }
 
 func printDefinitionTarget(frame, class string) {
-	fmt.Println(prefixDefinitionTarget + frame + separator + class)
+	fmt.Println(oneLine(prefixDefinitionTarget + frame + separator + class))
 }
 
 func printMatchingSignatures(p parser.Parser) {
@@ -500,7 +507,7 @@ func printSignature(sig base.Sig) {
 		sig.FileName + separator +
 		strconv.Itoa(sig.Row)
 
-	fmt.Println(line)
+	fmt.Println(oneLine(line))
 }
 
 func printInheritance(child, parent base.ClassNode) {
@@ -510,12 +517,12 @@ func printInheritance(child, parent base.ClassNode) {
 		parent.Frame + separator +
 		parent.Class
 
-	fmt.Println(line)
+	fmt.Println(oneLine(line))
 }
 
 func printSuggestion(contents, detail string, document string) {
 	fmt.Println(
-		prefixSignature + contents + separator + detail + separator + document,
+		oneLine(prefixSignature + contents + separator + detail + separator + document),
 	)
 }
 
